@@ -24,7 +24,7 @@ class Boom(Exception):
 
 
 def alphabet(nports):
-    a = ["start", "stop", "ctx_ok", "ctx_exc", "send_then_stop", "send_yield_stop", "stop_from_callback", "start_cancelled_stop"]
+    a = ["start", "stop", "ctx_ok", "ctx_exc", "send_then_stop", "send_yield_stop", "stop_from_callback", "start_cancelled_stop", "start_twice_at_once"]
     for i in range(nports):
         a += [f"send{i}", f"occupy{i}", f"release{i}"]
     a.append("swap_port")
@@ -47,6 +47,10 @@ def legal(history, nports):
         elif a == "start_cancelled_stop":
             if running or occ:
                 return False
+        elif a == "start_twice_at_once":
+            if running or occ:
+                return False
+            running = True
         elif a in ("send_then_stop", "send_yield_stop", "stop_from_callback"):
             if not running:
                 return False
@@ -258,6 +262,24 @@ class C17(Prop):
                         trace.append(f"stop raised {type(exc).__name__}")
                         vio("stop-raised", f"stop raised {type(exc).__name__}: {exc}")
                     model = False
+                elif a == "start_twice_at_once":
+                    # two tasks of the application start the same stopped bridge at the same time: whatever each call does, afterwards
+                    # the bridge either listens on every port and says so, or listens on none (then it is started again, alone)
+                    r1, r2 = await asyncio.gather(bridge.start(), bridge.start(), return_exceptions=True)
+                    trace.append(f"start twice at once: {type(r1).__name__ if r1 is not None else 'ok'} / {type(r2).__name__ if r2 is not None else 'ok'}")
+                    for rr in (r1, r2):
+                        if rr is not None and not isinstance(rr, OSError):
+                            vio("start-wrong-exception", f"one of two concurrent start() calls raised {type(rr).__name__}: {rr}")
+                    model = bridge.is_running
+                    acc.count("concurrent_double_starts")
+                    await check(a)
+                    if not model:
+                        try:
+                            await bridge.start()
+                            model = True
+                            trace.append("start ok")
+                        except Exception as exc:
+                            vio("start-failed-on-free-ports", f"start after a failed concurrent double start raised {type(exc).__name__}: {exc}")
                 elif a == "start_cancelled_stop":
                     # the caller gives up on start() (task cancelled / wait_for expired) after k loop cycles, then stops the bridge
                     k = (n * 5 + len(history) + nports) % 9
